@@ -35,9 +35,9 @@ pub fn run(ctx: &Ctx) -> i32 {
                 let e = match catch(|| { if route == "add_attachment" { let mut e = base.clone(); for (pi, v, c) in &chosen { e = e.add_attachment(payloads[*pi].clone(), v, *c) } e } else { let mut a = Attachments::new(); for (pi, v, c) in &chosen { a.add(payloads[*pi].clone(), *v, *c) } a.add_to_envelope(base.clone()) } }) { Ok(e) => e, Err(p) => { acc.viol(format!("C19|{route}|panic|{}", p.loc), p.msg.clone(), cid("build"), json!({})); continue } };
                 let mut ed: Vec<[u8; 32]> = seq.iter().map(|i| bind::dg(&att_env[*i])).collect(); ed.sort(); ed.dedup();
                 // a base that is itself an assertion/known value etc. is fine; bases that already carry 'attachment' assertions do not occur
-                let got = match catch(|| e.attachments()) { Ok(Ok(g)) => g, Ok(Err(er)) => { acc.viol("C19|attachments|refused", format!("attachments() failed on well-formed attachments: {er}"), cid("attachments"), json!({"envelope": e.format_flat()})); continue } Err(p) => { acc.viol(format!("C19|attachments|panic|{}", p.loc), p.msg.clone(), cid("attachments"), json!({})); continue } };
+                let got = match catch(|| e.attachments()) { Ok(Ok(g)) => g, Ok(Err(er)) => { acc.viol("C19|attachments|refused", format!("attachments() failed on well-formed attachments: {er}"), cid("attachments"), json!({"envelope": crate::report::ff(&e)})); continue } Err(p) => { acc.viol(format!("C19|attachments|panic|{}", p.loc), p.msg.clone(), cid("attachments"), json!({})); continue } };
                 let mut gd: Vec<[u8; 32]> = got.iter().map(bind::dg).collect(); gd.sort();
-                if gd != ed { acc.viol("C19|attachments|set-differs", "attachments() does not return exactly the added attachments", cid("attachments"), json!({"envelope": e.format_flat()})) }
+                if gd != ed { acc.viol("C19|attachments|set-differs", "attachments() does not return exactly the added attachments", cid("attachments"), json!({"envelope": crate::report::ff(&e)})) }
                 for g in &got {
                     if let Some(i) = seq.iter().find(|i| bind::dg(&att_env[**i]) == bind::dg(g)) {
                         let (pi, v, c) = atts[*i];
@@ -52,18 +52,18 @@ pub fn run(ctx: &Ctx) -> i32 {
                     let mut expf: Vec<[u8; 32]> = seq.iter().filter(|i| { let (_, v, c) = atts[**i]; fv.map_or(true, |x| x == v) && fc.map_or(true, |x| Some(x) == c) }).map(|i| bind::dg(&att_env[*i])).collect(); expf.sort(); expf.dedup();
                     let cidf = || cid(&format!("filter-{fv:?}-{fc:?}"));
                     match catch(|| e.attachments_with_vendor_and_conforms_to(fv, fc)) {
-                        Ok(Ok(g)) => { let mut gotf: Vec<[u8; 32]> = g.iter().map(bind::dg).collect(); gotf.sort(); if gotf != expf { acc.viol(format!("C19|filter|vendor={}|conformsTo={}|differs", fv.is_some(), fc.is_some()), "filtered query does not return exactly the matching attachments", cidf(), json!({"envelope": e.format_flat(), "vendor": fv, "conformsTo": fc})) } }
+                        Ok(Ok(g)) => { let mut gotf: Vec<[u8; 32]> = g.iter().map(bind::dg).collect(); gotf.sort(); if gotf != expf { acc.viol(format!("C19|filter|vendor={}|conformsTo={}|differs", fv.is_some(), fc.is_some()), "filtered query does not return exactly the matching attachments", cidf(), json!({"envelope": crate::report::ff(&e), "vendor": fv, "conformsTo": fc})) } }
                         Ok(Err(er)) => acc.viol("C19|filter|refused", format!("{er}"), cidf(), json!({})),
                         Err(p) => acc.viol(format!("C19|filter|panic|{}", p.loc), p.msg.clone(), cidf(), json!({})),
                     }
                     let single = catch(|| e.attachment_with_vendor_and_conforms_to(fv, fc));
                     let ok = match (expf.len(), &single) { (1, Ok(Ok(x))) => bind::dg(x) == expf[0], (0, Ok(Err(er))) => matches!(er.downcast_ref::<EnvelopeError>(), Some(EnvelopeError::NonexistentAttachment)), (k, Ok(Err(er))) if k > 1 => matches!(er.downcast_ref::<EnvelopeError>(), Some(EnvelopeError::AmbiguousAttachment)), _ => false };
-                    if !ok { acc.viol(format!("C19|single-result|matches={}", expf.len().min(2)), "single-result form: one => it, none => NonexistentAttachment, several => AmbiguousAttachment", cidf(), json!({"envelope": e.format_flat(), "vendor": fv, "conformsTo": fc})) }
+                    if !ok { acc.viol(format!("C19|single-result|matches={}", expf.len().min(2)), "single-result form: one => it, none => NonexistentAttachment, several => AmbiguousAttachment", cidf(), json!({"envelope": crate::report::ff(&e), "vendor": fv, "conformsTo": fc})) }
                 } }
                 acc.nontrivial(&(bi, seq.clone()));
             }
         }
-        if bi == (ctx.seed as usize % nbases) { acc.sample(json!({"base": base.format_flat(), "attachment_pool": atts.len(), "sequences": seqs.len(), "filters": 16})) }
+        if bi == (ctx.seed as usize % nbases) { acc.sample(json!({"base": crate::report::ff(&base), "attachment_pool": atts.len(), "sequences": seqs.len(), "filters": 16})) }
         acc
     }).reduce(Acc::new, Acc::merge);
     let mut acc = acc;
@@ -93,7 +93,7 @@ pub fn run(ctx: &Ctx) -> i32 {
             let e = e.add_assertion_envelope(m.clone()).unwrap();
             let cid = format!("malformed/{name}/good{}", with_good as u8);
             for (q, r) in [("attachments", catch(|| e.attachments().map(|v| v.len()))), ("filtered", catch(|| e.attachments_with_vendor_and_conforms_to(Some("v1"), None).map(|v| v.len()))), ("single", catch(|| e.attachment_with_vendor_and_conforms_to(Some("v1"), Some("c1")).map(|_| 1)))] {
-                match r { Err(p) => acc.viol(format!("C19|malformed|{q}|panic|{}", p.loc), p.msg.clone(), cid.clone(), json!({"envelope": e.format_flat()})), Ok(Ok(n)) => acc.viol(format!("C19|malformed|{q}|{name}|accepted"), format!("a malformed attachment assertion was not reported ({n} returned)"), cid.clone(), json!({"envelope": e.format_flat()})), Ok(Err(_)) => {} }
+                match r { Err(p) => acc.viol(format!("C19|malformed|{q}|panic|{}", p.loc), p.msg.clone(), cid.clone(), json!({"envelope": crate::report::ff(&e)})), Ok(Ok(n)) => acc.viol(format!("C19|malformed|{q}|{name}|accepted"), format!("a malformed attachment assertion was not reported ({n} returned)"), cid.clone(), json!({"envelope": crate::report::ff(&e)})), Ok(Err(_)) => {} }
             }
         }
     }
@@ -110,28 +110,28 @@ pub fn run(ctx: &Ctx) -> i32 {
             acc.inc("type_queries");
             let exp = mask >> i & 1 == 1;
             let cid = format!("types/mask{mask}/kv{i}");
-            match catch(|| (e.has_type(&kvt[i]), e.check_type(&kvt[i]).is_ok(), e.has_type_envelope(kvt[i].clone()), e.check_type_envelope(kvt[i].clone()).is_ok())) { Ok((a, b, c, d)) => if a != exp || b != exp || c != exp || d != exp { acc.viol(format!("C19|types|known-value|expected-{exp}"), "a type check disagrees with the set of added types", cid, json!({"envelope": e.format_flat()})) }, Err(p) => acc.viol(format!("C19|types|panic|{}", p.loc), p.msg.clone(), cid, json!({})) }
+            match catch(|| (e.has_type(&kvt[i]), e.check_type(&kvt[i]).is_ok(), e.has_type_envelope(kvt[i].clone()), e.check_type_envelope(kvt[i].clone()).is_ok())) { Ok((a, b, c, d)) => if a != exp || b != exp || c != exp || d != exp { acc.viol(format!("C19|types|known-value|expected-{exp}"), "a type check disagrees with the set of added types", cid, json!({"envelope": crate::report::ff(&e)})) }, Err(p) => acc.viol(format!("C19|types|panic|{}", p.loc), p.msg.clone(), cid, json!({})) }
         }
         for i in 0..2 {
             acc.inc("type_queries");
             let exp = mask >> (3 + i) & 1 == 1;
-            match catch(|| (e.has_type_envelope(txt[i]), e.check_type_envelope(txt[i]).is_ok())) { Ok((a, b)) => if a != exp || b != exp { acc.viol(format!("C19|types|text|expected-{exp}"), "text type check disagrees", format!("types/mask{mask}/txt{i}"), json!({"envelope": e.format_flat()})) }, Err(p) => acc.viol(format!("C19|types|panic|{}", p.loc), p.msg.clone(), format!("types/mask{mask}/txt{i}"), json!({})) }
+            match catch(|| (e.has_type_envelope(txt[i]), e.check_type_envelope(txt[i]).is_ok())) { Ok((a, b)) => if a != exp || b != exp { acc.viol(format!("C19|types|text|expected-{exp}"), "text type check disagrees", format!("types/mask{mask}/txt{i}"), json!({"envelope": crate::report::ff(&e)})) }, Err(p) => acc.viol(format!("C19|types|panic|{}", p.loc), p.msg.clone(), format!("types/mask{mask}/txt{i}"), json!({})) }
         }
         // types are 'isA' assertions compared by digest: a type whose object was elided afterwards is still reported
         for i in 0..2 { if mask >> (3 + i) & 1 == 1 {
             acc.inc("type_queries");
             let el = e.elide_removing_target(&Envelope::new(txt[i]));
-            if let Ok(false) = catch(|| el.has_type_envelope(txt[i])) { acc.viol("C19|types|text|elided-type-object-not-reported", "a type that was added is no longer reported once its object is elided (types compare by digest)", format!("types/mask{mask}/txt{i}/elided"), json!({"envelope": el.format_flat()})) }
+            if let Ok(false) = catch(|| el.has_type_envelope(txt[i])) { acc.viol("C19|types|text|elided-type-object-not-reported", "a type that was added is no longer reported once its object is elided (types compare by digest)", format!("types/mask{mask}/txt{i}/elided"), json!({"envelope": crate::report::ff(&el)})) }
         } }
         for i in 0..3 { if mask >> i & 1 == 1 {
             acc.inc("type_queries");
             let el = e.elide_removing_target(&Envelope::new(kvt[i].clone()));
-            if let Ok((false, _)) | Ok((_, false)) = catch(|| (el.has_type(&kvt[i]), el.check_type(&kvt[i]).is_ok())) { acc.viol("C19|types|known-value|elided-type-object-not-reported", "a known-value type that was added is no longer reported once its object is elided (types compare by digest)", format!("types/mask{mask}/kv{i}/elided"), json!({"envelope": el.format_flat()})) }
+            if let Ok((false, _)) | Ok((_, false)) = catch(|| (el.has_type(&kvt[i]), el.check_type(&kvt[i]).is_ok())) { acc.viol("C19|types|known-value|elided-type-object-not-reported", "a known-value type that was added is no longer reported once its object is elided (types compare by digest)", format!("types/mask{mask}/kv{i}/elided"), json!({"envelope": crate::report::ff(&el)})) }
         } }
         acc.inc("type_queries");
         if let Ok(false) = catch(|| !e.has_type_envelope("never-added") && !e.has_type(&known_values::IS_A)) { acc.viol("C19|types|absent|expected-false", "a type that was never added is reported", format!("types/mask{mask}/absent"), json!({})) }
         let n = mask.count_ones();
-        match catch(|| (e.get_type().is_ok(), e.types().len())) { Ok((ok, cnt)) => if ok != (n == 1) || cnt != n as usize { acc.viol("C19|types|get_type", "get_type is Ok iff exactly one type; types() lists exactly the added ones", format!("types/mask{mask}/get_type"), json!({"envelope": e.format_flat()})) }, Err(p) => acc.viol(format!("C19|types|panic|{}", p.loc), p.msg.clone(), format!("types/mask{mask}/get_type"), json!({})) }
+        match catch(|| (e.get_type().is_ok(), e.types().len())) { Ok((ok, cnt)) => if ok != (n == 1) || cnt != n as usize { acc.viol("C19|types|get_type", "get_type is Ok iff exactly one type; types() lists exactly the added ones", format!("types/mask{mask}/get_type"), json!({"envelope": crate::report::ff(&e)})) }, Err(p) => acc.viol(format!("C19|types|panic|{}", p.loc), p.msg.clone(), format!("types/mask{mask}/get_type"), json!({})) }
         acc.nontrivial(&("types", mask));
     }
     let evals = acc.get("attachment_sets") + acc.get("filter_queries") + acc.get("malformed_attachments") + acc.get("type_queries");
